@@ -1,7 +1,6 @@
 package props
 
 import (
-	stdxml "encoding/xml"
 	"errors"
 	"fmt"
 	"strings"
@@ -337,7 +336,7 @@ func c03Run(r *core.Run) {
 	violatesD := fault != "none" && !(!issuerCfg && (fault == "resp-issuer-wrong" || fault == "a-issuer-wrong"))
 	if !encrypted && t.Int(4, "c03.direct") == 1 && !r.Failed() {
 		dr := &types.Response{}
-		if err := stdxml.Unmarshal([]byte(xml), dr); err == nil {
+		if err := world.AppDecode(xml, dr); err == nil {
 			do := world.Guard(func() error { return s.Node.SP.Validate(dr) })
 			r.Steps++
 			r.Probe("validate_called_directly")
